@@ -71,6 +71,14 @@ def gen_message(rng, names):
     msg = {'command': cmd, 'id': 'm%d' % rng.randrange(10 ** 6),
            'properties': valid_props(rng, cmd, names)}
     meta = {'layer': 'command', 'cmd': cmd}
+    x = rng.random()
+    if x < 0.04:
+        # strings JSON can carry and UTF-8 cannot: an escaped lone surrogate
+        # in the id, which every reply echoes ...
+        msg['id'] = 'm\ud800%d' % rng.randrange(10 ** 6)
+    elif x < 0.07 and 'name' in msg['properties']:
+        # ... or in a name that the error text quotes
+        msg['properties']['name'] = rng.choice(['w\udc80', '\ud800', 'x\udfff*'])
     if rng.random() < 0.5:
         msg['properties']['waiting'] = True
     if rng.random() < 0.12:
